@@ -287,7 +287,7 @@ pub struct MetaExpect {
 }
 
 /// Judge the OPT / TSIG records the walker found at the end of the additional section.
-pub fn check_meta(bytes: &[u8], extra: &[wire::RawRecord], meta: &MetaExpect) -> Option<(String, String)> {
+pub fn check_meta(bytes: &[u8], extra: &[wire::RawRecord], meta: &MetaExpect, lower_owner: bool) -> Option<(String, String)> {
     let mut it = extra.iter();
     if let Some(o) = &meta.opt {
         let Some(r) = it.next() else { return Some(("wire:opt-missing".into(), "no OPT record on the wire".into())) };
@@ -322,7 +322,8 @@ pub fn check_meta(bytes: &[u8], extra: &[wire::RawRecord], meta: &MetaExpect) ->
     }
     if let Some(t) = &meta.tsig {
         let Some(r) = it.next() else { return Some(("wire:tsig-missing".into(), "no TSIG record on the wire".into())) };
-        if r.rtype != 250 || r.name != t.name || r.class != 255 || r.ttl != 0 {
+        let key_name = if lower_owner { super::audit::lower_labels(&t.name) } else { t.name.clone() };
+        if r.rtype != 250 || r.name != key_name || r.class != 255 || r.ttl != 0 {
             return Some(("wire:tsig-owner-fixed-fields".into(), format!("TSIG owner/type/class/ttl on the wire differ (type {}, class {}, ttl {})", r.rtype, r.class, r.ttl)));
         }
         let raw = &bytes[r.rdata_start..r.rdata_end];
@@ -331,6 +332,42 @@ pub fn check_meta(bytes: &[u8], extra: &[wire::RawRecord], meta: &MetaExpect) ->
         }
     }
     None
+}
+
+/// `impl BinEncodable for Edns` (not used by `Message::emit`, which goes through `Record::from(&Edns)`):
+/// the OPT record it writes against the RFC 6891 form (extended rcode bits as stored in the value: 0).
+pub fn check_edns_emit(e: &Edns, o: &OptExpect) -> Option<(String, String)> {
+    use hickory_proto::serialize::binary::BinEncodable;
+    let b = match e.to_bytes() {
+        Ok(b) => b,
+        Err(err) => return Some(("encode-failed:Edns::emit".into(), err.to_string())),
+    };
+    let bad = |what: &str| Some(("wire:edns-emit".to_string(), format!("Edns::emit wrote {} ({what})", hex::enc(&b))));
+    if b.len() < 11 || b[0] != 0 || b[1..3] != [0, 41] {
+        return bad("not a root-owned OPT record");
+    }
+    let class = u16::from_be_bytes([b[3], b[4]]);
+    let ttl = u32::from_be_bytes([b[5], b[6], b[7], b[8]]);
+    let rdlen = u16::from_be_bytes([b[9], b[10]]) as usize;
+    if class != o.class || ttl != (o.ttl & 0x00ff_ffff) | ((e.rcode_high() as u32) << 24) {
+        return bad("CLASS / TTL differ from the RFC 6891 form");
+    }
+    if b.len() != 11 + rdlen {
+        return bad("RDLENGTH does not match the octets written");
+    }
+    let norm = |mut v: Vec<(u16, Vec<u8>)>| {
+        for (c, d) in v.iter_mut() {
+            if *c == 5 {
+                d.sort();
+            }
+        }
+        v.sort();
+        v
+    };
+    match parse_opt_rdata(&b[11..]) {
+        Some(got) if norm(got.clone()) == norm(o.options.clone()) => None,
+        _ => bad("options differ from the ones assembled"),
+    }
 }
 
 /// The EDNS variants of the message product: the shapes of `c01::msgs::edns_variants` plus
